@@ -189,8 +189,8 @@ impl Check for C04 {
     }
     fn budget(&self, tier: Tier) -> Budget {
         match tier {
-            Tier::Quick => Budget { wall_secs: 20, max_cases: 400_000, checkpoint_every: 4096, workers: 16 },
-            Tier::Thorough => Budget { wall_secs: 240, max_cases: 40_000_000, checkpoint_every: 4096, workers: 16 },
+            Tier::Quick => Budget { wall_secs: 40, max_cases: 6_000_000, checkpoint_every: 4096, workers: 16 },
+            Tier::Thorough => Budget { wall_secs: 600, max_cases: 300_000_000, checkpoint_every: 4096, workers: 16 },
         }
     }
     fn generate(&self, seed: u64, idx: u64, _tier: Tier) -> Value {
